@@ -26,6 +26,24 @@ Definition check_C16 (c : case) : Z :=
         | None, OErr 2 _ => true
         | _, _ => false end in
       verdict model_ok spec_ok
+  (* the tables of Text.v against std, over all Unicode scalar values (the harness enumerates them):
+     - char::is_whitespace holds for exactly the scalars for which Text.is_whitespace does (the model's predicate is false
+       above U+3000 by its shape, so comparing with its extension on 0..U+3000 is complete);
+     - str::to_lowercase: on ASCII it is Text.to_lower; a non-ASCII scalar never lower-cases to a string of ASCII letters,
+       except U+212A KELVIN SIGN -> "k" (no month or weekday name contains k), so `lowercase s` is a month / weekday name
+       exactly when the std lower-casing of s is. *)
+  | Op_std_tables, [] =>
+      match c_out c with
+      | OOk [] (ws :: rows) =>
+          let ws_ok := zs_eqb ws (filter is_whitespace (range_incl 0 12288)) in
+          let row_ok (e : list Z) := match e with
+                                    | ch :: lc => if ch <? 128 then zs_eqb lc [to_lower ch]
+                                                  else negb (forallb is_ascii_alpha lc) || (zs_eqb lc [107] && (ch =? 8490))
+                                    | [] => false end in
+          let n_ascii := Z.of_nat (length (filter (fun e => match e with ch :: _ => ch <? 128 | [] => false end) rows)) in
+          verdict (ws_ok && forallb row_ok rows && (n_ascii =? 128)) true
+      | _ => V_MALFORMED
+      end
   | _, _ => V_MALFORMED
   end.
 
